@@ -1,21 +1,130 @@
-(* C01 — committed ledgers of honest replicas never diverge (chained and simple HotStuff). *)
+(* C01 — committed ledgers of honest replicas never diverge (chained, simple and fast HotStuff).
+   Only statements closed by [exact] and their assumptions; definitions are in Protocol/. *)
 From Coq Require Import List NArith ZArith.
 From HS Require Import Quorum.QuorumModel Protocol.Core Protocol.Chained Protocol.ChainedExec Protocol.ChainedExecProofs.
+From HS Require Import Protocol.Fast Protocol.FastExec Protocol.FastExecProofs.
 Import ListNotations.
 Open Scope N_scope.
 
-(* Every history accepted by the trace validator — i.e. every sequence of abstract-model
-   transitions, for either ruleset, any duplicate-free membership, any set of at most f
-   Byzantine members — ends in a state in which any two honest ledgers are prefix related and
-   each honest ledger is a hash-linked chain from genesis with strictly increasing views and
-   no repeated block. *)
+(* [config_ok replicas byz genesis]: duplicate-free membership of n >= 1 replicas, at most
+   f = (n-1)/3 Byzantine members (twins or arbitrary), genesis of view 0 whose parent/QC links
+   do not point at itself.  [honest byz r] = r is not Byzantine.
+
+   Chained and simple HotStuff. [Chained.reach] = every state reachable by any interleaving of:
+   a block coming to exist (any content), a Byzantine member signing any vote, an honest replica
+   signing a timeout, an honest replica voting under the guards the code enforces (fresh view,
+   certified QC, parent = certified block, higher view, lock target available, vote rule), an
+   honest replica committing along the commit walk when the commit rule fires.  Deliveries,
+   delays, duplication, loss and partitions are all covered because no transition depends on a
+   network.  In every such state the ledgers of any two honest replicas are prefix related and
+   each is a hash-linked chain hanging below genesis with strictly increasing views ([linked])
+   and without repeats. *)
+Theorem C01_chained_simple_ledgers_never_diverge :
+  forall rs replicas byz genesis,
+    config_ok replicas byz genesis = true ->
+    forall s, Chained.reach rs (member replicas) (honest byz) (qsize replicas) genesis s ->
+    forall r1 r2, honest byz r1 = true -> honest byz r2 = true ->
+      (prefix (log (Chained.loc genesis s r1)) (log (Chained.loc genesis s r2)) \/
+       prefix (log (Chained.loc genesis s r2)) (log (Chained.loc genesis s r1))) /\
+      linked genesis (log (Chained.loc genesis s r1)) /\ NoDup (log (Chained.loc genesis s r1)).
+Proof. intros rs replicas byz genesis Hc. exact (reach_safe rs replicas byz genesis Hc). Qed.
+Print Assumptions C01_chained_simple_ledgers_never_diverge.
+
+(* Fast-HotStuff: additionally Byzantine and honest signed timeout messages (an honest one
+   reports a certified block at least as high as the QC block of everything it voted for), and
+   the aggregate-QC vote rule with an aggregate certificate of a view >= proposal view - 1. *)
+Theorem C01_fast_ledgers_never_diverge :
+  forall replicas byz genesis,
+    config_ok replicas byz genesis = true ->
+    forall s, Fast.reach (member replicas) (honest byz) (qsize replicas) genesis s ->
+    forall r1 r2, honest byz r1 = true -> honest byz r2 = true ->
+      (prefix (f_log (Fast.loc genesis s r1)) (f_log (Fast.loc genesis s r2)) \/
+       prefix (f_log (Fast.loc genesis s r2)) (f_log (Fast.loc genesis s r1))) /\
+      linked genesis (f_log (Fast.loc genesis s r1)) /\ NoDup (f_log (Fast.loc genesis s r1)).
+Proof. intros replicas byz genesis Hc. exact (freach_safe replicas byz genesis Hc). Qed.
+Print Assumptions C01_fast_ledgers_never_diverge.
+
+(* The tie to the code: a history observed on the implementation and accepted by the executable
+   validator [run] / [frun] (this is what the correspondence check evaluates in the kernel on
+   every run) is a path of the abstract system, hence safe. *)
 Theorem C01_validated_histories_safe :
   forall rs replicas byz genesis es s,
     config_ok replicas byz genesis = true ->
     run rs replicas byz genesis (Chained.init genesis) es 0 = (s, None) ->
     forall r1 r2, honest byz r1 = true -> honest byz r2 = true ->
-      (prefix (log (loc genesis s r1)) (log (loc genesis s r2)) \/
-       prefix (log (loc genesis s r2)) (log (loc genesis s r1))) /\
-      linked genesis (log (loc genesis s r1)) /\ NoDup (log (loc genesis s r1)).
+      (prefix (log (Chained.loc genesis s r1)) (log (Chained.loc genesis s r2)) \/
+       prefix (log (Chained.loc genesis s r2)) (log (Chained.loc genesis s r1))) /\
+      linked genesis (log (Chained.loc genesis s r1)) /\ NoDup (log (Chained.loc genesis s r1)).
 Proof. intros rs replicas byz genesis es s Hc. exact (run_safe rs replicas byz genesis Hc es s). Qed.
 Print Assumptions C01_validated_histories_safe.
+
+Theorem C01_validated_fast_histories_safe :
+  forall replicas byz genesis es s,
+    config_ok replicas byz genesis = true ->
+    frun replicas byz genesis (Fast.init genesis) es 0 = (s, None) ->
+    forall r1 r2, honest byz r1 = true -> honest byz r2 = true ->
+      (prefix (f_log (Fast.loc genesis s r1)) (f_log (Fast.loc genesis s r2)) \/
+       prefix (f_log (Fast.loc genesis s r2)) (f_log (Fast.loc genesis s r1))) /\
+      linked genesis (f_log (Fast.loc genesis s r1)) /\ NoDup (f_log (Fast.loc genesis s r1)).
+Proof. intros replicas byz genesis es s Hc. exact (frun_safe replicas byz genesis Hc es s). Qed.
+Print Assumptions C01_validated_fast_histories_safe.
+
+(* Direct commits are ordered by ancestry (the core lemma, exported for C06). *)
+Theorem C01_direct_commits_ordered :
+  forall rs replicas byz genesis,
+    config_ok replicas byz genesis = true ->
+    forall s b3 b2 b1 c3 c2 c1,
+      Chained.reach rs (member replicas) (honest byz) (qsize replicas) genesis s ->
+      Chained.three_chain (member replicas) (qsize replicas) genesis s b3 b2 b1 ->
+      Chained.three_chain (member replicas) (qsize replicas) genesis s c3 c2 c1 ->
+      anc (Chained.U s) c3 b3 \/ anc (Chained.U s) b3 c3.
+Proof.
+  intros rs replicas byz genesis Hc s b3 b2 b1 c3 c2 c1.
+  destruct (cfg_parts replicas byz genesis Hc) as (_ & _ & _ & Gv & Gp & Gq).
+  exact (direct_commits_ordered rs (member replicas) (honest byz) (qsize replicas)
+           (quorum_inter_inst replicas byz genesis Hc) (quorum_has_honest_inst replicas byz genesis Hc)
+           genesis Gv Gp Gq s b3 b2 b1 c3 c2 c1).
+Qed.
+Print Assumptions C01_direct_commits_ordered.
+
+(* ---- non-vacuity: concrete accepted histories with commits, n = 4, replica 4 Byzantine ---- *)
+Definition g0 : block := {| b_hash := 1; b_parent := 0; b_view := 0; b_qc := 0 |}.
+Definition mk (h p v : N) : block := {| b_hash := h; b_parent := p; b_view := v; b_qc := p |}.
+Definition votes3 h l := [EVote 1 h l; EVote 2 h l; EVote 3 h l].
+Definition demo : list event :=
+  [EAddBlock (mk 2 1 1)] ++ votes3 2 (Some 1) ++ [EAddBlock (mk 3 2 2)] ++ votes3 3 (Some 1) ++
+  [EAddBlock (mk 4 3 3)] ++ votes3 4 (Some 2) ++ [EAddBlock (mk 5 4 4); EVote 1 5 (Some 3); ECommit 1 4 [2];
+   EByzVote 4 5; EStop 2 9; ECommit 2 4 [2]; EVote 3 5 (Some 3)].
+
+Example C01_demo_accepted :
+  config_ok [1;2;3;4] [4] g0 = true /\
+  snd (run RChained [1;2;3;4] [4] g0 (Chained.init g0) demo 0) = None /\
+  snd (run RSimple [1;2;3;4] [4] g0 (Chained.init g0) demo 0) = None /\
+  map (fun r => map b_hash (log (Chained.loc g0 (fst (run RChained [1;2;3;4] [4] g0 (Chained.init g0) demo 0)) r))) [1;2;3]
+    = [[2]; [2]; []].
+Proof. vm_compute. repeat split. Qed.
+
+(* an equivocating second block for view 1 cannot be voted by a replica that voted in view 1 *)
+Example C01_demo_equivocation_rejected :
+  snd (run RChained [1;2;3;4] [4] g0 (Chained.init g0)
+         ([EAddBlock (mk 2 1 1); EVote 1 2 (Some 1); EAddBlock {| b_hash := 9; b_parent := 1; b_view := 1; b_qc := 1 |};
+           EVote 1 9 (Some 1)]) 0) = Some 3%nat.
+Proof. vm_compute. reflexivity. Qed.
+
+Definition fvotes3 h a := [FVote 1 h a; FVote 2 h a; FVote 3 h a].
+Definition fdemo : list fevent :=
+  [FAddBlock (mk 2 1 1)] ++ fvotes3 2 None ++ [FAddBlock (mk 3 2 2)] ++ fvotes3 3 None ++
+  [FAddBlock (mk 4 3 3); FVote 1 4 None; FCommit 1 3 [2];
+   FStop 2 3; FTimeout 2 3 3; FStop 3 3; FTimeout 3 3 3; FStop 1 3; FTimeout 1 3 3;
+   FAddBlock (mk 6 3 4)].
+
+(* accepted: the aggregate-QC vote with an aggregate certificate of the preceding view;
+   rejected (index 18 = the vote): the same vote justified by an aggregate certificate of view 1,
+   and a timeout that reports a QC lower than the QC of a block the replica voted for *)
+Example C01_fdemo_accepted :
+  snd (frun [1;2;3;4] [4] g0 (Fast.init g0) (fdemo ++ [FVote 2 6 (Some (3, [(1, 3); (2, 3); (3, 3)]))]) 0) = None /\
+  snd (frun [1;2;3;4] [4] g0 (Fast.init g0) (fdemo ++ [FVote 2 6 (Some (1, [(1, 3); (2, 3); (3, 3)]))]) 0) = Some 18%nat /\
+  snd (frun [1;2;3;4] [4] g0 (Fast.init g0)
+         ([FAddBlock (mk 2 1 1)] ++ fvotes3 2 None ++ [FAddBlock (mk 3 2 2); FVote 1 3 None; FStop 1 2; FTimeout 1 2 1]) 0) = Some 7%nat /\
+  map b_hash (f_log (Fast.loc g0 (fst (frun [1;2;3;4] [4] g0 (Fast.init g0) fdemo 0)) 1)) = [2].
+Proof. vm_compute. repeat split. Qed.
